@@ -175,8 +175,8 @@ func GenCase(r *rand.Rand, prop string, thorough bool) *Case {
 				p = "lib"
 			}
 			mode := weighted(r,
-				[]string{"stale", "noted", "noncompiling", "garbage", "constraint_only", "otherpkg", "torn", "longer", "dir", "noconstraint", "nul", "empty"},
-				[]int{16, 10, 12, 10, 8, 8, 16, 10, 5, 2, 2, 1})
+				[]string{"stale", "tweaked", "noted", "noncompiling", "garbage", "constraint_only", "otherpkg", "torn", "longer", "dir", "noconstraint", "nul", "empty"},
+				[]int{12, 12, 10, 10, 10, 8, 8, 14, 10, 5, 2, 2, 1})
 			st := Step{Op: "corrupt", Pkg: p, Mode: mode, Cut: r.IntN(1001)}
 			if r.IntN(6) == 0 {
 				st.Prefix = "x_"
@@ -277,7 +277,37 @@ func genCmd(r *rand.Rand, prop string, names, nonlib []string, cur map[string]st
 	// faults
 	if r.IntN(100) < faultRate {
 		tgt := pick(r, nonlib)
-		outName := "/" + tgt + "/" + st.Prefix + "wire_gen.go"
+		// prefer a package this command will actually write: targeted and accepted
+		var cands []string
+		for _, n := range nonlib {
+			if Info(cur[n]).Class != ClassOK {
+				continue
+			}
+			hit := len(st.Patterns) == 0 && st.Cwd == n
+			for _, pt := range st.Patterns {
+				switch {
+				case pt == "./..." && st.Cwd == "", pt == "example.com/...":
+					hit = true
+				case (pt == "." || pt == "./...") && st.Cwd == n:
+					hit = true
+				case pt == "./"+n, pt == "../"+n, pt == "example.com/"+n:
+					hit = true
+				}
+			}
+			if hit {
+				cands = append(cands, n)
+			}
+		}
+		if len(cands) > 0 && r.IntN(8) != 0 {
+			tgt = pick(r, cands)
+		}
+		// write faults address the package directory, not a file name: they hit the
+		// Nth write-like operation there, whatever file a (changed) wire writes first
+		outName := "/" + tgt + "/"
+		nth := 1
+		if r.IntN(4) == 0 {
+			nth = 2 + r.IntN(2)
+		}
 		var kinds []string
 		switch st.Cmd {
 		case "gen", "default":
@@ -299,13 +329,13 @@ func genCmd(r *rand.Rand, prop string, names, nonlib []string, cur map[string]st
 			st.Header = "good"
 			st.Faults = append(st.Faults, world.Fault{Op: "read", Path: "hdr.txt", Nth: 1, Kind: "eio"})
 		case "w-err":
-			st.Faults = append(st.Faults, world.Fault{Op: "write", Path: outName, Nth: 1, Kind: pick(r, []string{"err-eacces", "err-enospc", "err-erofs", "err-eio"})})
+			st.Faults = append(st.Faults, world.Fault{Op: "write", Path: outName, Nth: nth, Kind: pick(r, []string{"err-eacces", "err-enospc", "err-erofs", "err-eio"})})
 		case "w-short":
-			st.Faults = append(st.Faults, world.Fault{Op: "write", Path: outName, Nth: 1, Kind: "short", N: r.IntN(1000)})
+			st.Faults = append(st.Faults, world.Fault{Op: "write", Path: outName, Nth: nth, Kind: "short", N: r.IntN(1000)})
 		case "w-crash-before", "w-crash-trunc", "w-crash-after":
-			st.Faults = append(st.Faults, world.Fault{Op: "write", Path: outName, Nth: 1, Kind: k[2:]})
+			st.Faults = append(st.Faults, world.Fault{Op: "write", Path: outName, Nth: nth, Kind: k[2:]})
 		case "w-crash-mid":
-			st.Faults = append(st.Faults, world.Fault{Op: "write", Path: outName, Nth: 1, Kind: "crash-mid", N: r.IntN(1000)})
+			st.Faults = append(st.Faults, world.Fault{Op: "write", Path: outName, Nth: nth, Kind: "crash-mid", N: r.IntN(1000)})
 		case "r-out":
 			st.Faults = append(st.Faults, world.Fault{Op: "read", Path: "/" + tgt + "/wire_gen.go", Nth: 1, Kind: pick(r, []string{"eio", "eacces"})})
 		case "getwd":
